@@ -1,0 +1,40 @@
+//go:build verif
+
+// Contracts for package argmapper, read by /verif/govc (contract-based
+// deductive verification). Comment-only; compiled only with the build tag
+// "verif". Format: /verif/DESIGN.md §2.2. Assumed contracts of reflect,
+// strings, fmt etc. live in /verif/contracts/*.spec.
+
+package argmapper
+
+// ---------------------------------------------------------------- result.go (C17)
+
+// errOf: the error a reflect value of static type error carries, else nil.
+//@ ghost errOf(v reflect.Value) any = ite(valid(v) && rtypeof(v) == errType && iface(v) != nil, iface(v), nil)
+//@ ghost lastOut(r *Result) reflect.Value = r.out[len(r.out)-1]
+//@ ghost finalIsErr(r *Result) bool = len(r.out) > 0 && rtypeof(lastOut(r)) == errType
+
+//@ func resultError
+//@   ensures result.buildErr == err && len(result.out) == 0
+//@   assigns Result.out, Result.buildErr
+
+//@ func (*Result).Err
+//@   pure
+//@   ensures imp(r.buildErr != nil, result == r.buildErr)
+//@   ensures imp(r.buildErr == nil && len(r.out) == 0, result == nil)
+//@   ensures imp(r.buildErr == nil && len(r.out) > 0, result == errOf(lastOut(r)))
+
+//@ func (*Result).hasError
+//@   pure
+//@   requires [last-valid] len(r.out) == 0 || valid(lastOut(r))
+//@   ensures result == finalIsErr(r)
+
+//@ func (*Result).Len
+//@   pure
+//@   requires [last-valid] len(r.out) == 0 || valid(lastOut(r))
+//@   ensures result == len(r.out) - ite(finalIsErr(r), 1, 0)
+
+//@ func (*Result).Out
+//@   pure
+//@   requires [in-range] 0 <= i && i < len(r.out) && valid(r.out[i])
+//@   ensures result == iface(r.out[i])
